@@ -18,7 +18,7 @@ func explore(ctx *Ctx) (*Outcome, error) {
 	var cases []*sem.Case
 	for i := 0; i < n; i++ {
 		r := sg.NewRng(ctx.Seed, fmt.Sprintf("explore-%d", i))
-		g := sg.NewGen(r, sg.Opts{MaxDepth: 2, Hazard: os.Getenv("HAZARD") != ""})
+		g := sg.NewGen(r, sg.Opts{MaxDepth: 2, Hazard: os.Getenv("HAZARD") != "", AddPropsTrue: true, NullType: true, RootKinds: true})
 		root := g.Root()
 		cases = append(cases, &sem.Case{Root: root, Sig: root.Sig()})
 	}
